@@ -40,6 +40,7 @@ type progClass struct {
 	Kind   string            // file | missing | dir
 	Reject bool              // the library is expected to reject it (checked at start)
 	Mixed  bool              // the library's verdict differs per target (no class-level expectation)
+	Link   bool              // F is a symbolic link: its target has another name and lies in another directory, next to another helper.tsh
 }
 
 var programs = []progClass{
@@ -49,6 +50,10 @@ var programs = []progClass{
 	{Name: "ok-small", Kind: "file", Main: "func swap(a int, b int) (int, int) {\n\treturn b, a\n}\nx := 1 + 2\ny := 5\nx, y = y, x\nxs := []int{1, 2}\nxs[3] = x\nfor i := 0; i < 2; i++ {\n\tif i == 1 {\n\t\ty += i\n\t} else if i == 0 {\n\t\tx += i\n\t}\n}\np, q := swap(x, y)\ns := \"Hi! a^b\"\nprint(s, s[0:2], len(xs), p, q, \"two\\nlines\")\n"},
 	{Name: "ok-import", Kind: "file", Main: "import (\n\thp \"helper.tsh\"\n\t\"strings\"\n)\n\nprint(hp.Twice(\"ab\"))\nprint(strings.Contains(\"hello\", \"ell\"))\n",
 		Extra: map[string]string{"helper.tsh": "func Twice(s string) string {\n\treturn s + s\n}\n"}},
+	// F is a symbolic link to ../impl/main_v2.tsh; F's directory and the target's directory both hold a helper.tsh
+	// (different ones). What the library returns for F (the path given) is the reference, as always.
+	{Name: "ok-symlink", Kind: "file", Link: true, Main: "import hp \"helper.tsh\"\n\nprint(hp.Who(), 1 + 2)\n",
+		Extra: map[string]string{"helper.tsh": "func Who() string {\n\treturn \"the helper next to F\"\n}\n"}},
 	{Name: "lexical-error", Kind: "file", Main: "x := \"abc\nprint(x)\n", Reject: true},
 	{Name: "syntax-error", Kind: "file", Main: "x := (1 +\nprint(x)\n", Reject: true},
 	{Name: "type-error", Kind: "file", Main: "var x int = \"s\"\nprint(x)\n", Reject: true},
@@ -59,7 +64,7 @@ var programs = []progClass{
 	{Name: "input-is-dir", Kind: "dir", Reject: true},
 }
 
-var fileNames = []string{"p.tsh", "a.b.c.tsh", "noext", "with blank.tsh", "UPPER.TSH", "tests.tsh", "hash.tsh", "dot..tsh"}
+var fileNames = []string{"p.tsh", "a.b.c.tsh", "noext", "with blank.tsh", "UPPER.TSH", "tests.tsh", "hash.tsh", "dot..tsh", "50%off.tsh", "100%s.tsh"}
 
 // names that begin or end with white space (family G)
 var blankNames = []string{" lead.tsh", "trail.tsh ", "noext ", "\ttab.tsh", " both .tsh "}
@@ -345,7 +350,7 @@ func enumerate(thorough bool) []Config {
 			}
 		}
 	}
-	for _, on := range []string{"out ", " out", "out\t", " o ut "} {
+	for _, on := range []string{"out ", " out", "out\t", " o ut ", "out%sdir", "100%"} {
 		for _, ts := range targetSeqs(2) {
 			for _, d := range []string{"empty", "sentinel"} {
 				out = append(out, Config{Targets: ts, Order: canonOrder(len(ts)), Spell: shortSpell(len(ts) + 2), File: "p.tsh", Prog: "ok-small", Dir: d, Form: "rel-out-named", OutName: on})
@@ -522,7 +527,16 @@ func runConfig(c Config) result {
 	res.Files = map[string]string{}
 	switch pc.Kind {
 	case "file":
-		os.WriteFile(fpath, []byte(pc.Main), 0o644)
+		if pc.Link {
+			impl := filepath.Join(root, "impl")
+			os.MkdirAll(impl, 0o755)
+			os.WriteFile(filepath.Join(impl, "main_v2.tsh"), []byte(pc.Main), 0o644)
+			os.WriteFile(filepath.Join(impl, "helper.tsh"), []byte("func Who() string {\n\treturn \"the helper next to the link target\"\n}\n"), 0o644)
+			os.Chtimes(filepath.Join(impl, "helper.tsh"), oldTime, oldTime)
+			os.Symlink(filepath.Join("..", "impl", "main_v2.tsh"), fpath)
+		} else {
+			os.WriteFile(fpath, []byte(pc.Main), 0o644)
+		}
 		res.Files[c.File] = pc.Main
 		for n, s := range pc.Extra {
 			os.WriteFile(filepath.Join(in, n), []byte(s), 0o644)
@@ -1181,7 +1195,7 @@ func Run() int {
 		r.Set("exhaustive", false)
 		r.Set("cap_hit", "sweep stopped at the internal deadline")
 	}
-	r.Set("rule", "a case = one execution of the real tsh binary (built from /repo at check time) in a fresh tree; coordinates: arrangement of the pairs -i/-o/-t..., short/long spelling per pair, target sequence of length 1..3 (4 in thorough sweep B), input file name (5), program class (8: 2 accepted, lexical/syntax/type/conversion error, missing file, directory), output directory (empty / pre-populated with sentinel outputs), path form (absolute / relative), 70+ malformed option sets, 1 injected write fault, plus (F) every sole-facility program of package corpus x every target sequence of length <= 2 (3 in thorough), (R) the command built with Go's race detector run free on every target sequence up to length 3 (a report of unsynchronised access between goroutines is the symptom data-race), (G) arguments that begin or end with white space: 5 such input names (a decoy program under the trimmed name next to each) x 3 path forms x 2 orders, 4 such output directories (a decoy directory under the trimmed name), padded target names and switches as malformed option sets; distinct by the full coordinate string; non-trivial: every case compares exit status, the full before/after content of the output directory against the library's bytes, and the input's bytes and mtime")
+	r.Set("rule", "a case = one execution of the real tsh binary (built from /repo at check time) in a fresh tree; coordinates: arrangement of the pairs -i/-o/-t..., short/long spelling per pair, target sequence of length 1..3 (4 in thorough sweep B), input file name (10, two of them with a percent sign), program class (9: 3 accepted - one of them a symbolic link whose target has another name and lies in another directory next to another helper file -, lexical/syntax/type/conversion error, missing file, directory), output directory (empty / pre-populated with sentinel outputs), path form (absolute / relative), 70+ malformed option sets, 1 injected write fault, plus (F) every sole-facility program of package corpus x every target sequence of length <= 2 (3 in thorough), (R) the command built with Go's race detector run free on every target sequence up to length 3 (a report of unsynchronised access between goroutines is the symptom data-race), (G) arguments that begin or end with white space: 5 such input names (a decoy program under the trimmed name next to each) x 3 path forms x 2 orders, 4 such output directories (a decoy directory under the trimmed name), padded target names and switches as malformed option sets; distinct by the full coordinate string; non-trivial: every case compares exit status, the full before/after content of the output directory against the library's bytes, and the input's bytes and mtime")
 	r.Assumef("the library's result for (F, program, target) is computed in-process by the transpiler linked from the same /repo working tree, on the path of the first run that needs it and on a copy in another directory (the two must agree, else the case is counted unspecified), then reused for every run with the same F, program and target; std is copied from /repo/std next to both executables")
 	r.Assumef("on an error the property fixes only: non-zero exit status, no new or changed output for a failing target, input untouched; a requested target that did not fail may be written exactly or not at all; the text and the value of a non-zero status are not compared")
 	r.Assumef("a trailing switch without a value and a stray word are counted as bad options")
